@@ -248,6 +248,11 @@ class Enumerator(object):
             return self.run(node['e'], path)
         if k == 'Block':
             return self.block(node, path)
+        if k == 'Match' and node.get('sp') in getattr(self.ev, 'tail_sps', ()):
+            lifted = S.lift_propagating_arm(node)
+            if lifted is not node:
+                self.ev.tail_sps = set(self.ev.tail_sps) | {lifted['expr']['sp']}
+                return self.run(lifted, path)
         if k == 'Match':
             node = H.nest_tuple_match(H.nest_result_match(node))
         if k == 'Match' and S.is_default_match(node) and not self.has_ctl(node['scrut']):
